@@ -314,3 +314,33 @@ Definition create_check tbl deps secrets gens ns ts pw (expected : list Z) : Z :
 (* 0 = the model reads the members to the expected result *)
 Definition read_check (pw : option Z) (ms : list (str * bool * blob)) (expected : list Z) : Z :=
   if zl_eqb (enc_read (s_read pw ms)) expected then 0 else 1.
+
+(* The suite sends the result of a read as [first two numbers of its encoding exactly; 31-bit hash
+   of the complete encoding]; the complete encodings are compared whenever these differ
+   (read_trace), see suites/archive.py. *)
+Definition hmod : Z := 2147483629.
+Fixpoint zhash (l : list Z) (acc : Z) : Z :=
+  match l with
+  | [] => acc
+  | x :: t => zhash t ((acc * 1000003 + x + 17) mod hmod)
+  end.
+Definition compact (full : list Z) : list Z := firstn 2 full ++ [zhash full 7].
+
+(* one archive: the model's create gives exactly the (abstracted) members of the real archive
+   (result 1 otherwise), and reading those members with each listed password gives the listed
+   result (otherwise 2 + index of the first differing read) *)
+Fixpoint reads_check (k : Z) (ms : list (str * bool * blob)) (reads : list (option Z * list Z)) : Z :=
+  match reads with
+  | [] => 0
+  | (p, e) :: r => if zl_eqb (compact (enc_read (s_read p ms))) e then reads_check (k + 1) ms r else k
+  end.
+Definition archive_check tbl deps secrets gens ns ts pw (ms : list (str * bool * blob))
+           (reads : list (option Z * list Z)) : Z :=
+  if zl_eqb (flat_map enc_member (s_create tbl deps secrets gens ns ts pw)) (flat_map enc_member ms)
+  then reads_check 2 ms reads else 1.
+Definition members_check (ms : list (str * bool * blob)) (reads : list (option Z * list Z)) : Z :=
+  reads_check 2 ms reads.
+(* diagnostics *)
+Definition create_trace tbl deps secrets gens ns ts pw : list Z :=
+  flat_map enc_member (s_create tbl deps secrets gens ns ts pw).
+Definition read_trace (pw : option Z) (ms : list (str * bool * blob)) : list Z := enc_read (s_read pw ms).
